@@ -413,6 +413,138 @@ def real_calc_classes(classes):
 
 
 # --------------------------------------------------------------------------
+# attribute / element declarations: use, default, fixed  (model: lean/XsdataModel/Gen/Attrs.lean)
+#   decl := {"kind": "attribute", "use": None|"optional"|"required"|"prohibited", "default", "fixed", "type": "string"|None}
+#         | {"kind": "element", "min", "max", "default", "fixed", "type": "string"|None}
+# --------------------------------------------------------------------------
+def gen_decl(rng, kind=None):
+    kind = kind or rng.choice(["attribute", "element"])
+    r = rng.random()
+    default = fixed = None
+    if r < 0.3:
+        default = rng.choice(["dv", "x y", "7", ""])
+    elif r < 0.55:
+        fixed = rng.choice(["fv", "1", "a b"])
+    elif r < 0.6:
+        default, fixed = "dv", "fv"  # not a valid declaration; the mapper does not care
+    tp = rng.choice(["string", "string", None])
+    if kind == "attribute":
+        return {"kind": kind, "use": rng.choice([None, "optional", "required", "required", "prohibited"]), "default": default, "fixed": fixed, "type": tp}
+    mn, mx = rng.choice([(1, 1), (0, 1), (0, MAXSIZE), (1, MAXSIZE), (2, 2), (0, 0), (1, 1), (0, 1)])
+    return {"kind": kind, "min": mn, "max": mx, "default": default, "fixed": fixed, "type": tp}
+
+
+def decl_valid(d):
+    """what XSD allows (attribute: 3.2.3 / au-props-correct; element: default and fixed exclusive)"""
+    if d["default"] is not None and d["fixed"] is not None:
+        return False
+    if d["kind"] == "attribute":
+        if d["default"] is not None and d["use"] not in (None, "optional"):
+            return False
+        if d["use"] == "prohibited" and (d["default"] is not None or d["fixed"] is not None):
+            return False
+    elif d["max"] == 0:
+        return False
+    return True
+
+
+def decls_xsd(decls, ns="urn:t"):
+    els, ats = [], []
+    for i, d in enumerate(decls):
+        extra = "".join(f' {k}="{_xml_attr(d[k])}"' for k in ("default", "fixed") if d[k] is not None)
+        tp = ' type="xs:string"' if d["type"] == "string" else ""
+        if d["kind"] == "attribute":
+            use = f' use="{d["use"]}"' if d["use"] else ""
+            ats.append(f'   <xs:attribute name="d{i}"{tp}{use}{extra}/>\n')
+        else:
+            els.append(f'    <xs:element name="d{i}"{tp}{occ_attrs(d["min"], d["max"])}{extra}/>\n')
+    tns = f' targetNamespace="{ns}" xmlns="{ns}" elementFormDefault="qualified"' if ns else ""
+    return (
+        f'<?xml version="1.0"?>\n<xs:schema xmlns:xs="http://www.w3.org/2001/XMLSchema"{tns}>\n'
+        f' <xs:element name="r">\n  <xs:complexType>\n   <xs:sequence>\n{"".join(els)}   </xs:sequence>\n{"".join(ats)}  </xs:complexType>\n </xs:element>\n</xs:schema>\n'
+    )
+
+
+def _xml_attr(v):
+    return v.replace("&", "&amp;").replace('"', "&quot;").replace("<", "&lt;")
+
+
+def export_gattr(attr):
+    r = attr.restrictions
+    return {
+        "is_attribute": attr.is_attribute,
+        "min": r.min_occurs if r.min_occurs is not None else 0,
+        "max": r.max_occurs if r.max_occurs is not None else 0,
+        "default": attr.default,
+        "fixed": bool(attr.fixed),
+        "any_obj": object in attr.native_types,
+    }
+
+
+def real_attr_map(decls):
+    """SchemaParser + SchemaMapper + CalculateAttributePaths: the Attr of every declaration"""
+    from xsdata.codegen.handlers.calculate_attribute_paths import CalculateAttributePaths
+    from xsdata.codegen.mappers.schema import SchemaMapper
+    from xsdata.codegen.parsers.schema import SchemaParser
+    from xsdata.models.xsd import Schema
+
+    schema = SchemaParser(location="mem.xsd").from_bytes(decls_xsd(decls).encode(), Schema)
+    root = next(c for c in SchemaMapper.map(schema) if c.name == "r")
+    CalculateAttributePaths().process(root)
+    by_name = {a.name: a for a in root.attrs}
+    return [export_gattr(by_name[f"d{i}"]) for i in range(len(decls))]
+
+
+def build_gattr(g, name="x"):
+    from xsdata.codegen.models import Attr, AttrType, Restrictions
+    from xsdata.models.enums import DataType, Namespace, Tag
+
+    if g["is_attribute"]:
+        dt = DataType.ANY_SIMPLE_TYPE if g["any_obj"] else DataType.STRING
+        tag = Tag.ATTRIBUTE
+    else:
+        dt = DataType.ANY_TYPE if g["any_obj"] else DataType.STRING
+        tag = Tag.ELEMENT
+    a = Attr(name=name, tag=tag, types=[AttrType(qname=str(dt), native=True)], default=g["default"], fixed=g["fixed"],
+             restrictions=Restrictions(min_occurs=g["min"], max_occurs=g["max"]))
+    if g.get("xsi_type"):
+        a.name, a.namespace = "type", Namespace.XSI.uri
+    return a
+
+
+def real_attr_sanitize(gattrs):
+    from xsdata.codegen.container import ClassContainer
+    from xsdata.codegen.handlers import SanitizeAttributesDefaultValue
+    from xsdata.codegen.models import Class
+    from xsdata.models.config import GeneratorConfig
+    from xsdata.models.enums import Tag
+
+    handler = SanitizeAttributesDefaultValue(ClassContainer(GeneratorConfig()))
+    target = Class(qname="r", tag=Tag.ELEMENT, location="mem")
+    out = []
+    for g in gattrs:
+        a = build_gattr(g)
+        target.attrs = [a]
+        handler.process_attribute(target, a)
+        out.append(export_gattr(a))
+    return out
+
+
+def dataclass_field_shape(f):
+    import dataclasses
+
+    if f.default_factory is not dataclasses.MISSING:
+        d = "list" if f.default_factory in (list, tuple) else "factory"
+    elif f.default is dataclasses.MISSING:
+        d = "MISSING"
+    elif f.default is None:
+        d = "None"
+    else:
+        d = [f.default if isinstance(f.default, str) else repr(f.default)]
+    return {"init": f.init, "default": d}
+
+
+# --------------------------------------------------------------------------
 # real sites
 # --------------------------------------------------------------------------
 def renumber(sites):
